@@ -488,6 +488,15 @@ def concrete_playback(h, ws, tgt, logdir, timeout):
     rc, to, wall = run_cmd(cmd, ws, timeout, h.mem + 4, logpath)
     src = os.path.join(ws, "verif_h", os.path.basename(h.file))
     text = open(src).read()
+    # Kani inserts the unit test right after the harness function; for harnesses generated by a
+    # macro_rules! template that is *inside* the macro body (the test would be defined once per
+    # invocation and not compile): move every generated test to the end of the module.
+    pat = re.compile(r"(?:^///[^\n]*\n)*\s*#\[test\]\s*fn kani_concrete_playback_\w+\(\) \{.*?\n\}\n", re.S | re.M)
+    blocks = pat.findall(text)
+    if blocks:
+        text = pat.sub("", text)
+        text = text.rstrip("\n") + "\n\n" + "\n".join(b.strip("\n") + "\n" for b in blocks)
+        open(src, "w").write(text)
     tests = re.findall(r"fn (kani_concrete_playback_%s_\w+)\(" % re.escape(h.name), text)
     return tests, src
 
